@@ -371,9 +371,13 @@ pub(crate) fn case_process_eq<C: Ctx>() {
         assert!(a.off() == b.off() && words_eq(&a.words(), &b.words()), "process: exactly one process_mut call, on the whole output buffer");
         // fixed non-degenerate variants (a counterexample under the recorder stub often has offset 0/64 or an empty input):
         // entry in the middle of the cached block, with the same state and data
+        let mut c2 = [0u8; 64]; // pairwise distinct keystream bytes (the counterexample's cached block is often all zero)
+        for i in 0..64 {
+            c2[i] = (i as u8).wrapping_mul(37).wrapping_add(11);
+        }
         for (o, l) in [(17usize, 6usize), (63, 6), (1, 3), (64, 6)] {
-            let mut a2 = C::mk(w, cached, o);
-            let mut b2 = C::mk(w, cached, o);
+            let mut a2 = C::mk(w, c2, o);
+            let mut b2 = C::mk(w, c2, o);
             let mut o2 = [0x5au8; 6];
             a2.p(&data.buf[..l], &mut o2[..l]);
             let mut buf2 = data.buf;
